@@ -266,7 +266,15 @@ def oracle_compare(subs_js, nq, script, state, debug=False):
             return {"what": "transpiler raises " + t["err"] + " on a program that runs", "stage": "transpile"}
         tsubs.append(t["ser"])
         padded = padded or has_pad(js, t["ser"])
-    b = run_subroutines(tsubs, nq, script, state, NV_CLASSES, max_steps=40 * 4000)
+        # every branch of the serialised program must have an instruction to land on
+        for k, j in enumerate(t["ser"]):
+            c = HC.class_by_name(j["c"])
+            if issubclass(c, (core.JmpInstruction, core.BranchUnaryInstruction, core.BranchBinaryInstruction)):
+                tgt = j["o"][-1].get("i")
+                if not (isinstance(tgt, int) and 0 <= tgt < len(t["ser"])):
+                    return {"what": "a branch of the transpiled program targets no instruction", "stage": "static",
+                            "at": k, "target": tgt, "length": len(t["ser"])}
+    b = run_subroutines(tsubs, nq, script, state, NV_CLASSES, max_steps=40 * (a["steps"] + 10))
     if b["err"] is not None:
         return {"what": "transpiled program faults: " + b["err"], "stage": "run"}
     ma, mb = copy.deepcopy(a["mem"]), copy.deepcopy(b["mem"])
